@@ -1089,15 +1089,14 @@ func readCandidatePort(raw string, start int) (int, int, error) {
 // As defined in RFC 4566  1*(%x01-09/%x0B-0C/%x0E-FF) ;any byte except NUL, CR, or LF
 // we imply that extensions byte-string are UTF-8 encoded.
 func readCandidateByteString(raw string, start int) (string, int, error) {
-	for i, char := range raw[start:] {
+	for i := start; i < len(raw); i++ {
+		char := raw[i]
 		if char == 0x20 { // SP
-			return raw[start : start+i], start + i + 1, nil
+			return raw[start:i], i + 1, nil
 		}
 
-		// 1*(%x01-09/%x0B-0C/%x0E-FF)
-		if (char < 0x01 || char > 0x09) &&
-			(char < 0x0B || char > 0x0C) &&
-			(char < 0x0E || char > 0xFF) {
+		// 1*(%x01-09/%x0B-0C/%x0E-FF): bytes, not runes, so that multi-byte UTF-8 is accepted
+		if char == 0x00 || char == 0x0A || char == 0x0D {
 			return "", 0, fmt.Errorf("invalid byte-string character: %c", char) //nolint: err113 // handled by caller
 		}
 	}
